@@ -166,6 +166,7 @@ def main(ck):
       if rng.rand() < 0.3:
         PB = PB + gg.perp_unit(rng, dvec) * smin * rng.uniform(0, 0.5)
         shifted = True
+      ck.journal(dict(stage='mj_forward', xml=xml, PA=PA, qA=gg.mat2quat(RA), PB=PB, qB=gg.mat2quat(RB)))
       gg.set_pose(lib, m, d, PA, RA, PB, RB)
       # the engine's kinematics must have put the geoms where the scene says (sanity of the harness)
       if np.max(np.abs(d.geom_xpos[0] - PA)) > 1e-9 * (1 + np.linalg.norm(PA)) or \
@@ -175,6 +176,7 @@ def main(ck):
       info = dict(ta=ta, tb=tb, sa=sa, sb=sb, PA=PA, qA=gg.mat2quat(RA), PB=PB, qB=gg.mat2quat(RB), margin=M, gap=G,
                   okind=okind, dkind=dkind, dclass=dclass, delta=delta, shifted=shifted, tol=tol_ccd, xml=xml)
       soft = []
+      ck.journal({k: v for k, v in info.items()})      # a crash of the collider is attributed to this pose
       check_pose(ck, lib, m, d, S, M, G, tol_ccd, info, calib, stats, soft, True)
       if soft:
         # FINDING F2 (see report): GJK occasionally stagnates with an error far above ccd_tolerance, and whether it
@@ -337,7 +339,7 @@ def main(ck):
       g1, g2 = int(c['geom'][0]), int(c['geom'][1])
       S1, S2 = S[g1], S[g2]
       n = np.array(c['frame'][:3])
-      touching = is_ccd and abs(dmin - M) <= TOUCH_BAND * tol_ccd     # EPA started from a (near) degenerate simplex
+      touching = is_ccd and abs(dmin - (M + G)) <= TOUCH_BAND * tol_ccd   # the collider works on shapes inflated by (margin+gap)/2     # EPA started from a (near) degenerate simplex
       # ---- distance value
       f5 = pair == ('capsule', 'capsule') and np.linalg.norm(np.cross(S[0].mat[:, 2], S[1].mat[:, 2])) < 1e-6
       if f5:
@@ -472,6 +474,12 @@ def main(ck):
         # by construction |signed distance| <= |delta| for unshifted poses (support points at distance delta along dvec)
         bydelta = (not info['shifted']) and abs(info['delta']) <= TOUCH_BAND * tol_ccd
         band[0] = bydelta or abs(est) <= TOUCH_BAND * tol_ccd + tprim
+        if not band[0] and dtrue is None:
+          # the cheap estimate can stall on creases of box/cylinder pairs: decide with a much denser search
+          feat = [sg * S[i].mat[:, k] for i in (0, 1) if S[i].typ != 'plane' for k in range(3) for sg in (1.0, -1.0)]
+          ub, _ = gr.penetration_depth_sampled(S[0], S[1], 6000, True,
+                                               extra=[f12[3:] - f12[:3], S[1].pos - S[0].pos] + feat, nstart=16)
+          band[0] = abs(ub) <= TOUCH_BAND * tol_ccd + tprim
         if band[0]:
           labels.append('geomDistance-touching-band')
       return band[0]
